@@ -4,6 +4,9 @@ import json, os, subprocess, sys
 ROOT = os.path.dirname(os.path.dirname(os.path.abspath(__file__)))
 
 CLAIMED = {
+ "C12": ("exploration", "property-based testing (proptest): CKKS plaintexts decoded by an independent route (per-prime inverse NTT + own CRT) and compared with exact roundings / a naive canonical embedding; refusal oracle",
+         "Generated-input search over chains of 1..19 primes, every level, five entry points, scales with non-trivial mantissas from 2^0 to 2^(log Q - 2) so that scaled magnitudes land below 2^64, in 2^64..2^128 and above 2^128, both signs, imaginary parts, integers above and below each prime, lists of length 0..N. The plaintext is brought back to one centered integer vector by the oracle's own CRT and compared exactly (integer, single-real and coefficient-list paths) or within 1/2 + double-precision error of a compensated naive inverse embedding (vector paths); decoding must return the input within the analysed tolerance; inadmissible scales and oversized inputs must be refused. Two pinned defects were found this way and fixed.",
+         "Trusted: BigU/BigI, f64 reference embedding with Kahan summation; inputs within 3 bits of the modulus size are not judged (either outcome allowed).", "DESIGN.md §6 C12"),
  "C04": ("exploration", "exhaustive enumeration of Galois elements / rotation steps at small N + property-based testing, against index-arithmetic automorphism and slot-permutation oracles",
          "Generated-input search: every odd element g<2N and every step (direct key and NAF composition from the default key set) at N in {4,8,16,32} for the three schemes at first and last level, plus random parameter sets, key-set variants (from elements, from steps, default, seed-compressed then expanded), column swap / conjugation, secret-key switching and plaintext automorphisms in both representations. The decrypted polynomial must be m(X^g) (exact in BFV/BGV, integer coefficients within worst-case noise in CKKS) and decoded slots must be the documented permutation / conjugation.",
          "Trusted: refmath index arithmetic, own CRT, noise model DESIGN.md §4.", "DESIGN.md §6 C04"),
